@@ -1028,8 +1028,11 @@ func clientCredentials(p Pair, side int, base string, strategy bool, sc *c10.Scr
 
 func httpCache(p Pair, side int, base string) (evalFn, error) {
 	url, method, authz, body := base+"/http/doc", http.MethodPost, "A1", "b1"
+	val := "v1"
 
 	switch {
+	case is(p, side, "differ", "vary_header"):
+		val = "v2" // a header the response varies with (the server names it in Vary)
 	case is(p, side, "differ", "url"):
 		url = base + "/http/doc2"
 	case is(p, side, "differ", "url_case"):
@@ -1066,6 +1069,7 @@ func httpCache(p Pair, side int, base string) (evalFn, error) {
 		}
 
 		req.Header.Set("Authorization", authz)
+		req.Header.Set("X-Val", val)
 
 		resp, err := client.Do(req)
 		if err != nil {
